@@ -123,6 +123,20 @@ theorem LogInv.extend {s s' : Eng} (hinv : LogInv s) (f : LTXFile)
     subst hg
     exact ⟨h4.symm, h5.symm⟩
 
+/-- every file of a log that satisfies the invariant lies below a file that extends the position -/
+theorem LogInv.below {s : Eng} (hinv : LogInv s) (f : LTXFile) (h2 : f.minTxid = s.posTxid + 1) :
+    ∀ g ∈ s.ltx, g.minTxid < f.minTxid := by
+  intro g hg
+  cases hl : s.ltx.getLast? with
+  | none =>
+    have : s.ltx = [] := by simpa using hl
+    rw [this] at hg; simp at hg
+  | some z =>
+    have hz := hinv.last z hl
+    have hmax := chain_max_le_last s.ltx hinv.chain hinv.ranges z hl g hg
+    have := (hinv.ranges g hg).2
+    omega
+
 /-- a snapshot replacing the log keeps the invariant -/
 theorem LogInv.snapshot {s' : Eng} (f : LTXFile) (h1 : s'.ltx = [f]) (h2 : 1 ≤ f.minTxid) (h3 : f.minTxid ≤ f.maxTxid)
     (h4 : s'.posTxid = f.maxTxid) (h5 : s'.posChk = f.post) : LogInv s' := by
